@@ -21,6 +21,15 @@ Mirrored quirks of the code:
   * the stream machine accepts `[0-9]+` only as SIZE, then `:`, then SIZE bytes, then a type byte
     out of `#}],$!~^`, of which only `,` `$` `#` `~` are converted (the others fail an assertion).
 
+  * `dump(data, encoding=E)` / `parse(data, encoding=E)`: the text codec `E` is handed down to every
+    nested list and dictionary *value*; dictionary keys are always ASCII `,` strings and `parse_dict`
+    parses a key with the default codec (`Enc`: utf-8, latin-1, ascii, utf-16 are modelled).
+  * `tnet_from(..., ignore=S)`: symbols in `S` are skipped between messages (`step` in state `start`).
+    The model mirrors the REPAIRED code (fixes/C20-ignore-between-blocks.patch): a separator is
+    skipped wherever it arrives.  `feedChunksOld` is the code before the fix: separators were only
+    skipped when already buffered at the moment the previous message completed, and never the
+    symbol 0; kept for the witness.
+
 No imports: this file is linked into the `cpppo_model` driver.
 -/
 namespace Cpppo.Tnet
@@ -136,6 +145,69 @@ def utf8Dec : Bytes → Option (List Nat)
       | _ => none
     else none
 
+/-! ### text codecs (`encoding=`) -/
+
+/-- `'utf-16'` code units of one code point (meaningful for scalar values) -/
+def utf16Units (c : Nat) : List Nat :=
+  if c < 65536 then [c] else [55296 + (c - 65536) / 1024, 56320 + (c - 65536) % 1024]
+
+def utf16EncLE : List Nat → Bytes
+  | [] => []
+  | c :: cs => ((utf16Units c).flatMap fun u => [u % 256, u / 256]) ++ utf16EncLE cs
+
+/-- bytes to 16-bit units; `le` = little endian; `none` = truncated data -/
+def unitsOf (le : Bool) : Bytes → Option (List Nat)
+  | [] => some []
+  | [_] => none
+  | a :: b :: rest => (unitsOf le rest).map ((if le then a + 256 * b else 256 * a + b) :: ·)
+
+/-- 16-bit units to code points; `none` = illegal surrogate -/
+def decUnits : List Nat → Option (List Nat)
+  | [] => some []
+  | u :: rest =>
+    if u < 55296 || 57344 ≤ u then (decUnits rest).map (u :: ·)
+    else if u < 56320 then
+      match rest with
+      | w :: rest' =>
+        if 56320 ≤ w && w < 57344 then
+          (decUnits rest').map ((65536 + (u - 55296) * 1024 + (w - 56320)) :: ·)
+        else none
+      | [] => none
+    else none
+
+/-- UTF-16 decoding of BOM-less data; `none` = UnicodeDecodeError -/
+def utf16Dec (le : Bool) (bs : Bytes) : Option (List Nat) := (unitsOf le bs).bind decUnits
+
+/-- the codecs modelled for the `encoding=` option -/
+inductive Enc where
+  | utf8 | latin1 | ascii | utf16
+deriving DecidableEq
+
+/-- `str.encode(E)` succeeds -/
+def encOk : Enc → List Nat → Bool
+  | .utf8, cps => cps.all isScalar
+  | .latin1, cps => cps.all (· < 256)
+  | .ascii, cps => cps.all (· < 128)
+  | .utf16, cps => cps.all isScalar
+
+/-- `str.encode(E)` -/
+def encText : Enc → List Nat → Bytes
+  | .utf8, cps => utf8Enc cps
+  | .latin1, cps => cps
+  | .ascii, cps => cps
+  | .utf16, cps => 255 :: 254 :: utf16EncLE cps          -- BOM, then little endian (native order)
+
+/-- `bytes.decode(E)`; `none` = UnicodeDecodeError -/
+def decText : Enc → Bytes → Option (List Nat)
+  | .utf8, bs => utf8Dec bs
+  | .latin1, bs => some bs
+  | .ascii, bs => if bs.all (· < 128) then some bs else none
+  | .utf16, bs =>
+    match bs with
+    | 255 :: 254 :: rest => utf16Dec true rest
+    | 254 :: 255 :: rest => utf16Dec false rest
+    | _ => utf16Dec true bs                              -- no BOM: native order
+
 /-! ### float tokens -/
 
 /-- one or more digits, returning the remainder -/
@@ -182,40 +254,40 @@ def frame (payload : Bytes) (typ : Nat) : Bytes :=
 def boolTok (b : Bool) : Bytes := if b then [116, 114, 117, 101] else [102, 97, 108, 115, 101]
 
 mutual
-def dump : TVal → Bytes
+def dump (e : Enc) : TVal → Bytes
   | .int i => frame (intDec i) 35
   | .float tok => frame tok 94
   | .bool b => frame (boolTok b) 33
   | .null => [48, 58, 126]
   | .bytes bs => frame bs 44
-  | .text cps => frame (utf8Enc cps) 36
-  | .list vs => frame (dumpList vs) 93
-  | .dict kvs => frame (dumpDict kvs) 125
-def dumpList : TList → Bytes
+  | .text cps => frame (encText e cps) 36
+  | .list vs => frame (dumpList e vs) 93
+  | .dict kvs => frame (dumpDict e kvs) 125
+def dumpList (e : Enc) : TList → Bytes
   | .nil => []
-  | .cons v vs => dump v ++ dumpList vs
-def dumpDict : TDict → Bytes
+  | .cons v vs => dump e v ++ dumpList e vs
+def dumpDict (e : Enc) : TDict → Bytes
   | .nil => []
-  | .cons k v kvs => frame k 44 ++ (dump v ++ dumpDict kvs)
+  | .cons k v kvs => frame k 44 ++ (dump e v ++ dumpDict e kvs)
 end
 
-/- what `dump` does not raise on: text must consist of scalar values, dictionary keys of ASCII -/
+/- what `dump` does not raise on: text must be encodable by the codec, dictionary keys ASCII -/
 mutual
-def encodable : TVal → Bool
-  | .text cps => cps.all isScalar
-  | .list vs => encodableList vs
-  | .dict kvs => encodableDict kvs
+def encodable (e : Enc) : TVal → Bool
+  | .text cps => encOk e cps
+  | .list vs => encodableList e vs
+  | .dict kvs => encodableDict e kvs
   | _ => true
-def encodableList : TList → Bool
+def encodableList (e : Enc) : TList → Bool
   | .nil => true
-  | .cons v vs => encodable v && encodableList vs
-def encodableDict : TDict → Bool
+  | .cons v vs => encodable e v && encodableList e vs
+def encodableDict (e : Enc) : TDict → Bool
   | .nil => true
-  | .cons k v kvs => k.all (· < 128) && encodable v && encodableDict kvs
+  | .cons k v kvs => k.all (· < 128) && encodable e v && encodableDict e kvs
 end
 
 /-- `dump` as the code behaves: `none` = exception (UnicodeEncodeError) -/
-def dump? (v : TVal) : Option Bytes := if encodable v then some (dump v) else none
+def dump? (e : Enc) (v : TVal) : Option Bytes := if encodable e v then some (dump e v) else none
 
 /-! ### the values the property quantifies over -/
 
@@ -224,20 +296,20 @@ def TDict.hasKey (k : List Nat) : TDict → Bool
   | .cons k' _ kvs => k' == k || TDict.hasKey k kvs
 
 /- Well-formed values (decidable): a float is a `str(float)`-shaped token, text consists of Unicode
-scalar values, dictionary keys are ASCII and distinct (a Python `dict` cannot hold a key twice). -/
+scalar values / encodable by the codec, dictionary keys are ASCII and distinct (a Python `dict` cannot hold a key twice). -/
 mutual
-def wf : TVal → Bool
+def wf (e : Enc) : TVal → Bool
   | .float tok => floatTokOk tok
-  | .text cps => cps.all isScalar
-  | .list vs => wfList vs
-  | .dict kvs => wfDict kvs
+  | .text cps => encOk e cps
+  | .list vs => wfList e vs
+  | .dict kvs => wfDict e kvs
   | _ => true
-def wfList : TList → Bool
+def wfList (e : Enc) : TList → Bool
   | .nil => true
-  | .cons v vs => wf v && wfList vs
-def wfDict : TDict → Bool
+  | .cons v vs => wf e v && wfList e vs
+def wfDict (e : Enc) : TDict → Bool
   | .nil => true
-  | .cons k v kvs => k.all (· < 128) && !(TDict.hasKey k kvs) && wf v && wfDict kvs
+  | .cons k v kvs => k.all (· < 128) && !(TDict.hasKey k kvs) && wf e v && wfDict e kvs
 end
 
 /-! ### parse -/
@@ -281,50 +353,51 @@ def TDict.put (k : List Nat) (v : TVal) (later : TDict) : TDict :=
   .cons k ((later.lookup k).getD v) (later.erase k)
 
 mutual
-/-- `parse(data)` with recursion fuel; `none` = an exception (AssertionError / ValueError) -/
-def parseF : Nat → Bytes → Option (TVal × Bytes)
+/-- `parse(data, encoding=e)` with recursion fuel; `none` = an exception (AssertionError / ValueError) -/
+def parseF (e : Enc) : Nat → Bytes → Option (TVal × Bytes)
   | 0, _ => none
   | fuel + 1, data =>
     match parsePayload data with
     | none => none
     | some (payload, t, remain) =>
       if t = 35 then (pyInt payload).map fun i => (.int i, remain)
-      else if t = 125 then (parseDictF fuel payload).map fun d => (.dict d, remain)
-      else if t = 93 then (parseListF fuel payload).map fun l => (.list l, remain)
+      else if t = 125 then (parseDictF e fuel payload).map fun d => (.dict d, remain)
+      else if t = 93 then (parseListF e fuel payload).map fun l => (.list l, remain)
       else if t = 33 then some (.bool (payload == [116, 114, 117, 101]), remain)
       else if t = 63 then (if payload.length = 1 then some (.bool (payload == [116]), remain) else none)
       else if t = 94 then (if floatTokOk payload then some (.float payload, remain) else none)
       else if t = 126 then (if payload.length = 0 then some (.null, remain) else none)
       else if t = 44 then some (.bytes payload, remain)
-      else if t = 36 then (utf8Dec payload).map fun cps => (.text cps, remain)
+      else if t = 36 then (decText e payload).map fun cps => (.text cps, remain)
       else none
 /-- `parse_list` -/
-def parseListF : Nat → Bytes → Option TList
+def parseListF (e : Enc) : Nat → Bytes → Option TList
   | 0, _ => none
   | fuel + 1, data =>
     if data.isEmpty then some .nil else
-    match parseF fuel data with
+    match parseF e fuel data with
     | none => none
-    | some (v, extra) => (parseListF fuel extra).map fun vs => .cons v vs
-/-- `parse_dict` -/
-def parseDictF : Nat → Bytes → Option TDict
+    | some (v, extra) => (parseListF e fuel extra).map fun vs => .cons v vs
+/-- `parse_dict`: the key is parsed by `parse(extra)`, i.e. with the default utf-8 (only a `,`
+payload, never decoded, is accepted as a key); the value is parsed with the caller's codec -/
+def parseDictF (e : Enc) : Nat → Bytes → Option TDict
   | 0, _ => none
   | fuel + 1, data =>
     if data.isEmpty then some .nil else
-    match parseF fuel data with
+    match parseF .utf8 fuel data with
     | some (.bytes key, extra) =>
       if extra.isEmpty then none                 -- "Unbalanced dictionary store."
-      else match parseF fuel extra with
+      else match parseF e fuel extra with
         | none => none
         | some (v, extra') =>
-          if key.all (· < 128) then (parseDictF fuel extra').map fun d => TDict.put key v d
+          if key.all (· < 128) then (parseDictF e fuel extra').map fun d => TDict.put key v d
           else none                              -- key.decode('ascii')
     | _ => none                                  -- key is not bytes / parse failed
 end
 
-/-- `tnetstrings.parse(data)`.  Every level of nesting and every list/dict element costs at least
-one byte of input, so `data.length + 1` fuel never runs out (`parse_fuel_enough`). -/
-def parse (data : Bytes) : Option (TVal × Bytes) := parseF (data.length + 1) data
+/-- `tnetstrings.parse(data, encoding=e)`.  Every level of nesting and every list/dict element costs
+at least one byte of input, so `data.length + 1` fuel never runs out. -/
+def parse (e : Enc) (data : Bytes) : Option (TVal × Bytes) := parseF e (data.length + 1) data
 
 /-! ### the streaming parser (`tnet_machine` under `tnet_from`) -/
 
@@ -352,11 +425,12 @@ def convert (t : Nat) (src : Bytes) : Option TVal :=
 def isType (t : Nat) : Bool :=
   t == 35 || t == 125 || t == 93 || t == 44 || t == 36 || t == 33 || t == 126 || t == 94
 
-/-- one input symbol -/
-def step (r : Run) (b : Nat) : Run :=
+/-- one input symbol; `ign` = the `ignore=` symbols, skipped between messages -/
+def step (ign : Bytes) (r : Run) (b : Nat) : Run :=
   match r.st with
   | .failed => r
-  | .start => if isDigit b then { r with st := .size (b - 48), sent := r.sent + 1 }
+  | .start => if ign.contains b then { r with sent := r.sent + 1 }
+              else if isDigit b then { r with st := .size (b - 48), sent := r.sent + 1 }
               else { r with st := .failed }
   | .size n =>
     if isDigit b then { r with st := .size (n * 10 + (b - 48)), sent := r.sent + 1 }
@@ -371,9 +445,41 @@ def step (r : Run) (b : Nat) : Run :=
     else { r with st := .failed }
 
 /-- a block of input (one `recv`) -/
-def feed (r : Run) (bs : Bytes) : Run := bs.foldl step r
+def feed (ign : Bytes) (r : Run) (bs : Bytes) : Run := bs.foldl (step ign) r
 
 /-- a sequence of blocks, as `tnet_from` chains them into its source -/
-def feedChunks (r : Run) (chunks : List Bytes) : Run := chunks.foldl feed r
+def feedChunks (ign : Bytes) (r : Run) (chunks : List Bytes) : Run := chunks.foldl (feed ign) r
+
+/-! #### the code before fixes/C20-ignore-between-blocks.patch
+
+`while ignore and source.peek() and source.peek() in ignore: next(source)` ran once per message,
+before the machine was started: it saw only symbols already buffered (the rest of the block that
+completed the previous message), and `source.peek()` being falsy stopped it at the symbol 0.  Once
+the machine had been started on an empty buffer, a separator arriving in the next block reached
+SIZE and raised NonTerminal.  `skipping` = the skip loop is still looking at buffered input. -/
+
+structure RunOld where
+  run : Run := {}
+  skipping : Bool := false      -- `tnet_from` starts with an empty source: the first skip loop sees nothing
+deriving DecidableEq
+
+def stepOld (ign : Bytes) (r : RunOld) (b : Nat) : RunOld :=
+  match r.run.st with
+  | .start =>
+    if r.skipping && ign.contains b && b != 0 then { r with run := { r.run with sent := r.run.sent + 1 } }
+    else
+      let run' := step [] r.run b
+      { run := run', skipping := false }
+  | _ =>
+    let run' := step [] r.run b
+    -- a message has just been delivered: the loop top runs its skip loop over what is buffered
+    { run := run', skipping := decide (run'.st = .start) }
+
+/-- one block; when it is exhausted the skip loop (if it was still running) ends and the machine is
+started on an empty buffer -/
+def feedOld (ign : Bytes) (r : RunOld) (bs : Bytes) : RunOld :=
+  { bs.foldl (stepOld ign) r with skipping := false }
+
+def feedChunksOld (ign : Bytes) (r : RunOld) (chunks : List Bytes) : RunOld := chunks.foldl (feedOld ign) r
 
 end Cpppo.Tnet
